@@ -16,7 +16,7 @@ pub fn property() -> Property {
     Property {
         id: "C07",
         level: "exploration",
-        rule: "Requests are built from generated programs of builder calls (method incl. extension tokens; URL path/query with unicode, blanks, percent and reserved characters; param/params/query with arbitrary UTF-8 keys/values; header/header_append with names over the token alphabet and values over visible ASCII + obs-text; basic_auth/bearer_auth over arbitrary strings; bodies: none, text, bytes, file (cursor at 0/mid/end, 0..300 KiB), json, json_streaming (> 8 KiB), form, multipart, and custom Body programs = random sequences of write/write_all/flush/zero-length write/write_vectored, 1 B..200 KiB per call, wrapped in BufWriter or not, declared Chunked or honest KnownLength), sent through the scripted transport (optionally with short-write / Interrupted schedules) and the bytes received by the peer are decoded by an independent strict request parser cross-checked with httparse. Oracle: exactly one request and nothing after it; method, percent-decoded path, form-decoded query pairs, per-name header value lists, base64-decoded credentials and de-framed body equal the builder inputs (value model of the documented header semantics); framing consistent (CL == octets written; chunked with the terminator as the only zero-length chunk; never both, never neither for a non-empty body); exactly one `Connection: close`. An 'after-failure' generator first lets a send fail while its request is being written (transport error at byte k <= 600) and then judges the next request of the same thread the same way; a 'failing-bodies' generator makes a custom Body fail after k of its operations: send() must fail and the bytes on the connection must not form a complete request (a cut-short body is not sealed with the terminating chunk). Non-trivial: every case; distinct = hash(bytes on the wire, write-fault schedule).",
+        rule: "Requests are built from generated programs of builder calls (method incl. extension tokens; URL path/query with unicode, blanks, percent and reserved characters; param/params/query with arbitrary UTF-8 keys/values; header/header_append with names over the token alphabet and values over visible ASCII + obs-text; basic_auth/bearer_auth over arbitrary strings; bodies: none, text, bytes, file (cursor at 0/mid/end, 0..300 KiB), json, json_streaming (> 8 KiB), form, multipart, and custom Body programs = random sequences of write/write_all/flush/zero-length write/write_vectored, 1 B..200 KiB per call, wrapped in BufWriter or not, declared Chunked or honest KnownLength), sent through the scripted transport (optionally with short-write / Interrupted schedules) and the bytes received by the peer are decoded by an independent strict request parser cross-checked with httparse. A third of the custom bodies (and of the body-less requests) replace a body attached by an earlier text()/bytes() call; a fifth of the query-less URLs carry a present-but-empty query whose `?` must appear in the target. Oracle: exactly one request and nothing after it; method, percent-decoded path, form-decoded query pairs, per-name header value lists, base64-decoded credentials and de-framed body equal the builder inputs (value model of the documented header semantics); framing consistent (CL == octets written; chunked with the terminator as the only zero-length chunk; never both, never neither for a non-empty body); exactly one `Connection: close`. An 'after-failure' generator first lets a send fail while its request is being written (transport error at byte k <= 600) and then judges the next request of the same thread the same way; a 'failing-bodies' generator makes a custom Body fail after k of its operations: send() must fail and the bytes on the connection must not form a complete request (a cut-short body is not sealed with the terminating chunk). Non-trivial: every case; distinct = hash(bytes on the wire, write-fault schedule).",
         assumptions: &["callers that hand-set framing headers contradicting the body, and dishonest KnownLength bodies, are not generated", "header values are generated without leading/trailing blanks (no parser can hand those back)"],
         min_nontrivial: |t| t.pick(5_000, 200_000),
         gens,
